@@ -15,7 +15,9 @@ fn classify(r: &Result<(), String>) -> String {
     match r {
         Ok(()) => "ok".into(),
         Err(m) if m.contains("SYNACK timeout") => "err-timeout".into(),
-        Err(m) if m.contains("Server error: ") => format!("err-server {}", hex(m.split("Server error: ").nth(1).unwrap_or("").as_bytes())),
+        // (a reason that is not UTF-8 is shown to the caller through a lossy conversion: canonical form `lossy`)
+        Err(m) if m.contains("Server error: ") && m.contains('\u{fffd}') => "err-server lossy".into(),
+        Err(m) if m.contains("Server error: ") => format!("err-server {}", hex_compact(m.split("Server error: ").nth(1).unwrap_or("").as_bytes())),
         Err(m) if m.contains("Session closed") => "err-session".into(),
         Err(m) if m.contains("stream closed by peer") => "err-fin".into(),
         Err(m) if m.contains("channel closed") => "err-chan".into(),
@@ -30,6 +32,10 @@ impl Group for OpenGroup {
     fn fixed(&self, _tier: &str) -> Vec<Case> {
         let l = |v: &[&str]| Case { lines: v.iter().map(|s| s.to_string()).collect() };
         vec![
+            // a failure reason that is not text (or text cut inside a character) is still a failure
+            l(&["open reset", "open start 0", &format!("open feed {}", hex(&ref_encode(7, 1, &[0xff, 0xfe, 0xfd]))), "open poll 0"]),
+            l(&["open reset", "open start 0", &format!("open feed {}", hex(&ref_encode(7, 1, &"Failed to resolve 日本語".as_bytes()[..20]))), "open poll 0"]),
+            l(&["open reset", "open start 0", &format!("open feed {}", hex(&ref_encode(7, 1, "Failed to resolve 日本語.invalid:80".as_bytes()))), "open poll 0"]),
             // regression witness (DESIGN §6 D9): an Alert during the wait must fail the open at once, not after 30 s
             l(&["open reset", "open start 0", &format!("open feed {}", hex(&ref_encode(5, 0, b"bye"))), "open poll 0", "open tick 30010", "open poll 0"]),
             // answer exactly at / after the deadline
@@ -53,7 +59,9 @@ impl Group for OpenGroup {
             let sid = match rng.below(6) { 0 => rng.range(started + 1, started + 3), 1 => 0, _ => rng.range(1, started) } as u32;
             let l = match k {
                 25..=49 => format!("open feed {}", hex(&ref_encode(7, sid, &[]))),
-                50..=59 => format!("open feed {}", hex(&ref_encode(7, sid, b"Failed to connect to t:1: Connection refused"))),
+                50..=55 => format!("open feed {}", hex(&ref_encode(7, sid, b"Failed to connect to t:1: Connection refused"))),
+                // reasons a server may send: multi-byte text, text cut in the middle of a character, bytes that are no text at all
+                56..=59 => { let reasons: [&[u8]; 6] = ["Failed to resolve 日本語.invalid:80".as_bytes(), &"Failed to resolve 日本語".as_bytes()[..20], &[0xff, 0xfe, 0xfd], &[0x80], &[b'x'; 300], &[0xe6, 0x97]]; let r: &[u8] = *rng.pick(&reasons); format!("open feed {}", hex(&ref_encode(7, sid, r))) }
                 60..=66 => { let mut w = ref_encode(7, sid, &[]); w.extend(ref_encode(7, sid, b"late error")); format!("open feed {}", hex(&w)) }
                 67..=76 => format!("open tick {}", rng.pick(&[10u64, 1000, 14990, 15000, 29900, 29980, 29990, 30000, 30010, 45000])),
                 77..=86 => format!("open poll {}", rng.below(started)),
@@ -124,7 +132,7 @@ impl Group for OpenGroup {
                                 if c == 7 && sid >= 1 && (sid as usize) <= first_event.len() {
                                     let idx = sid as usize - 1;
                                     if first_event[idx].is_none() && pend[idx].done.is_none() && now_ms < pend[idx].started_ms + 30000 {
-                                        first_event[idx] = Some((if d.is_empty() { "ok".into() } else { format!("err-server {}", hex(&d)) }, now_ms));
+                                        first_event[idx] = Some((if d.is_empty() { "ok".into() } else if std::str::from_utf8(&d).is_err() { "err-server lossy".into() } else { format!("err-server {}", hex_compact(&d)) }, now_ms));
                                     }
                                 }
                                 if c == 3 && sid >= 1 && (sid as usize) <= first_event.len() { /* FIN: entry removed; a later SYNACK is for an unknown id */
